@@ -51,6 +51,9 @@ var tunnelShapes = []shape{
 	{"K-post-origin-unreachable", "POST", "/k", nil, "0123456789abcdef", "", false},
 	// HEAD for a resource the origin sends without Content-Length: a head only, no body framing bytes
 	{"L-head-chunked", "HEAD", "/b", nil, "", "", false},
+	// the origin announces 36 bytes and breaks off after 10: the client must learn that the body is
+	// incomplete (the connection ends), and what follows on a new connection is unaffected
+	{"M-origin-aborts-sized-body", "GET", "/m", nil, "", "", false},
 }
 
 func scriptTunnelOrigin(o *vnet.Origin, prefix string) {
@@ -60,6 +63,7 @@ func scriptTunnelOrigin(o *vnet.Origin, prefix string) {
 	o.Put(prefix+"/d", &vnet.Res{Name: "td", Size: 0, Status: 204, Headers: vnet.H{{"X-D", "token-d"}}})
 	o.Put(prefix+"/g", &vnet.Res{Name: "tg", Size: 7, Headers: vnet.H{{"Cache-Control", "no-store"}, {"Content-Type", "text/x-g"}}})
 	o.Put(prefix+"/k", &vnet.Res{Name: "tk", Size: 5, DialError: true})
+	o.Put(prefix+"/m", &vnet.Res{Name: "tm", Size: 36, AbortAfter: 10, Headers: vnet.H{{"Cache-Control", "no-store"}, {"Content-Type", "text/x-m"}}})
 	o.Put(prefix+"/h", &vnet.Res{Name: "th", Size: 9, Status: 500, Headers: vnet.H{{"Content-Type", "text/x-h"}}})
 	o.Put(prefix+"/i", &vnet.Res{Name: "ti", Size: 20, Headers: vnet.H{{"Cache-Control", "max-age=600"}, {"X-One", "token-i"}, {"Set-Cookie", "i=1"}, {"Content-Type", "text/x-i"}}})
 }
@@ -213,6 +217,11 @@ func scenarioTunnel(c *vrun.Ctx) {
 							tun = t
 						}
 						r = tun.Do(rawOriginFormHost(s.method, prefix+s.path, s.hdrs, s.body, s.host))
+						if r.Err != "" || r.Dropped {
+							// a client whose exchange broke off does not reuse the connection: it opens a new tunnel
+							tun.Close()
+							tun = nil
+						}
 					}
 					results[mode] = append(results[mode], summary(r))
 				}
@@ -231,8 +240,14 @@ func scenarioTunnel(c *vrun.Ctx) {
 					}
 				}
 			}
+			connectionEnded := false // on the pipelined tunnel: an exchange broke off, what was written behind it is void
 			for i := range seq {
 				one, per, plain := results["one-tunnel"][i], results["tunnel-per-request"][i], results["plain"][i]
+				if strings.HasPrefix(one, "ERR:") && seq[i].name == "M-origin-aborts-sized-body" && one == per && per == plain && strings.Contains(one, "unexpected EOF") {
+					// the origin broke off: on every transport the client is told so by the end of the connection
+					connectionEnded = true
+					continue
+				}
 				if strings.HasPrefix(one, "ERR:") {
 					c.SetCase(desc)
 					c.Violation("C10/tunnel/no-response/"+seq[i].name+"/after-"+prevName(seq, i), fmt.Sprintf("exchange %d (%s) on the kept-alive tunnel got no well-formed response: %s | sequence: %s", i+1, seq[i].name, one, desc), nil)
@@ -244,10 +259,13 @@ func scenarioTunnel(c *vrun.Ctx) {
 					c.Violation("C10/tunnel/depends-on-earlier-exchange/"+seq[i].name+"/after-"+prevName(seq, i), fmt.Sprintf("exchange %d (%s) differs between one kept-alive tunnel and a tunnel of its own:\n kept-alive: %s\n own tunnel: %s\n sequence: %s", i+1, seq[i].name, one, per, desc), nil)
 					break
 				}
-				if pl := results["pipelined"]; len(pl) == len(seq) && strings.ReplaceAll(pl[i], prefixOf(env.seq, "q"), "") != strings.ReplaceAll(per, prefixOf(env.seq, "t"), "") {
+				if pl := results["pipelined"]; len(pl) == len(seq) && !connectionEnded && strings.ReplaceAll(pl[i], prefixOf(env.seq, "q"), "") != strings.ReplaceAll(per, prefixOf(env.seq, "t"), "") {
 					c.SetCase(desc)
 					c.Violation("C10/tunnel/pipelined-differs/"+seq[i].name+"/after-"+prevName(seq, i), fmt.Sprintf("exchange %d (%s) differs between a tunnel whose requests were all written before the first answer was read and a tunnel of its own:\n pipelined:  %s\n own tunnel: %s\n sequence: %s", i+1, seq[i].name, pl[i], per, desc), nil)
 					break
+				}
+				if strings.HasPrefix(per, "ERR:") {
+					connectionEnded = true
 				}
 				if per != plain && !seq[i].tunnelOnly {
 					c.SetCase(desc)
